@@ -175,6 +175,23 @@ def _check_errors_list(ctx: Ctx, rule: str, f: FuncInfo, g, errs: str, outcomes:
                construct=construct(f, 'order:sort<status'), detail=f'reverse={norm(rev)}')
         key = kwarg(x, 'key')
         key = origin(f, key) if key is not None else None
+        if isinstance(key, ast.Name):       # a named (inner or module-level) function instead of a lambda: read its guard-clause body as one expression
+            defs = [n for n in ast.walk(f.module.tree) if isinstance(n, ast.FunctionDef) and n.name == key.id]
+            if len(defs) == 1 and len(defs[0].args.args) == 1 and not defs[0].decorator_list:
+                def body_expr(stmts):
+                    stmts = [st for st in stmts if not (isinstance(st, ast.Expr) and isinstance(st.value, ast.Constant))]
+                    if not stmts:
+                        return None
+                    st = stmts[0]
+                    if isinstance(st, ast.Return):
+                        return st.value
+                    if isinstance(st, ast.If):
+                        a, b = body_expr(st.body), body_expr(list(st.orelse) or stmts[1:])
+                        return None if a is None or b is None else ast.copy_location(ast.IfExp(test=st.test, body=a, orelse=b), st)
+                    return None
+                be = body_expr(defs[0].body)
+                if be is not None:
+                    key = ast.copy_location(ast.Lambda(args=defs[0].args, body=be), defs[0])
         if not isinstance(key, ast.Lambda) or len(key.args.args) != 1:
             ctx.ob(rule, 'build_response: the priority is a one-argument key function over the error', False, loc=f.loc(x),
                    construct=construct(f, 'dispatch:priority-key'), detail=norm(key))
